@@ -188,8 +188,35 @@ def ref_logpdf(kind, params, m, y):
     return float(stats.norm.logpdf(y, loc=m, scale=sd))
 
 
+def long_series(case):
+    """Direct check on a long series (hundreds of observations, values far from 1): the total is the sum of the
+    documented log-densities and of the pointwise values.  (Too long for the certified route; products of that many
+    values leave the floating-point range, sums of logs do not.)"""
+    import random
+    rng = random.Random(case['seed'])
+    kind = case['kind']
+    n = rng.choice([250, 400])
+    lo, hi = rng.choice([(10.0, 200.0), (1e-4, 1e-2), (0.5, 2.0)])
+    ms = [rng.uniform(lo, hi) for _ in range(n)]
+    ys = [m * rng.uniform(0.8, 1.25) for m in ms]
+    params = [0.5, 0.25] if kind == 'CMG' else [0.5]
+    em = chi_model(kind)
+    ll = float(em.compute_log_likelihood(params, ms, ys))
+    pw = np.asarray(em.compute_pointwise_ll(params, ms, ys), dtype=float)
+    s1 = float(em.compute_sensitivities(params, ms, np.ones((n, 1)), ys)[0])
+    ref = sum(ref_logpdf(kind, params, m, y) for m, y in zip(ms, ys))
+    for name, v in (('compute_log_likelihood', ll), ('sum of compute_pointwise_ll', float(np.sum(pw))),
+                    ('score of compute_sensitivities', s1)):
+        if not math.isfinite(v) or abs(v - ref) > 1e-9 * (1 + abs(ref)):
+            return ('%s, %d observations between %g and %g: %s is %r, the sum of the documented log-densities is %r' % (
+                kind, n, lo, hi, name, v, ref))
+    return None
+
+
 def oracle(case):
     """None if chi satisfies C04 on this case (independent closed forms / finite differences)."""
+    if case.get('type') == 'long':
+        return long_series(case)
     em = chi_model(case['kind'])
     k, params, ms, ys = case['kind'], list(case['params']), list(case['ms']), list(case['ys'])
     n, p = len(ms), (len(case['sens'][0]) if case['sens'] else 0)
@@ -287,12 +314,24 @@ def run(ck):
         ck.case({'case': case, 'chi': res})
         cases.append((label, pr))
         payload[label] = case
+    for kind in KINDS:
+        for j in range(ck.n(3, 20)):
+            lc = {'type': 'long', 'kind': kind, 'seed': ck.rng.randrange(10 ** 9), 'guard': False}
+            try:
+                d = long_series(lc)
+            except Exception as e:
+                d = 'chi raised %s: %s' % (type(e).__name__, e)
+            ck.count('long series kind=%s' % kind)
+            ck.case(lc)
+            if d:
+                ck.violation('C04|%s|long series' % kind, d, lc)
     ck.cov['rule'] = ('stratified suite per error model (square/wide/tall sensitivity shapes, every guard site) plus '
                       'cases drawn from one PRNG (VERIF_SEED): 1-6 (thorough: up to 12) observations, sensitivity '
                       'width 0-3, dyadic parameters/outputs/observations, 10% outside the support; each case is '
                       'evaluated on a fresh instance with lists and on a long-lived instance with numpy buffers '
                       'refilled in place (results must be identical); distinct = distinct (kind, inputs); every '
-                      'case is non-trivial (it exercises ll, pointwise and S1 of a real chi error model)')
+                      'case is non-trivial (it exercises ll, pointwise and S1 of a real chi error model); plus series of '
+                      '250-400 observations at three magnitudes checked directly against the summed documented densities')
     ck.log('certifying %d cases with CoqInterval' % len(cases))
     bad = ck.numeric('errmodels', HEADER, UNFOLD, cases)
     wider_rng = random.Random(ck.seed + 1)
